@@ -71,7 +71,8 @@ func genSnapScenario(r *verifsim.Run) *cScenario {
 				}
 			}
 			up += uint32(1000 / cfg.Fps)
-			cn.Ev = append(cn.Ev, cEvent{Kind: kind, Pix: p, ID: val, Tel: telFor(up, val)})
+			// (the camera's own frame counter starts again with every connection: the daemon restarted it)
+			cn.Ev = append(cn.Ev, cEvent{Kind: kind, Pix: p, ID: val, Tel: telFor(up, len(cn.Ev)+1)})
 			val++
 		}
 		fs := cfg.frameSize()
@@ -125,7 +126,7 @@ func runCSnap(r *verifsim.Run) {
 		for i := range cn.Ev {
 			if cn.Ev[i].Kind == 'F' || cn.Ev[i].Kind == 'B' {
 				up += 1000
-				cn.Ev[i].Tel = telFor(up, cn.Ev[i].ID)
+				cn.Ev[i].Tel = telFor(up, i+1)
 			}
 		}
 		for i := range cn.Costs {
@@ -146,7 +147,13 @@ func runCSnap(r *verifsim.Run) {
 		n := r.Range(2, 10)
 		var gaps []int
 		var kinds []byte
+		spread := r.Chance(1, 2) // this client's requests are spread over the whole run (all connections), not bunched at its start
 		for k := 0; k < n; k++ {
+			if spread {
+				gaps = append(gaps, -r.Range(0, 2*totalFrames/n+1)) // negative: a gap counted in processed frames
+				kinds = append(kinds, "ssssti"[r.Draw(6)])
+				continue
+			}
 			gaps = append(gaps, r.OneOf(0, 1, 2, 5, r.Range(0, 60), r.Range(0, 600), r.Range(0, 40*totalFrames)))
 			kinds = append(kinds, "ssssti"[r.Draw(6)])
 		}
@@ -300,6 +307,9 @@ func checkSnap(r *verifsim.Run, sc *cScenario, res *cSchedResult, compareFiles b
 				}
 			}
 			r.Probe("snapshot-served")
+			if q.Conn > 0 {
+				r.Probe("snapshot-served-after-a-reconnect")
+			}
 		case 'i':
 			if q.Info == nil {
 				continue
